@@ -48,13 +48,13 @@ type mEffect struct {
 }
 
 type mapOrder struct {
-	c        *Ctx
-	p        *Prog
-	memo     map[*types.Func][]mEffect
-	inProg   map[*types.Func]bool
-	nLoops   int
-	nSyncMap int
-	nChan    int
+	c           *Ctx
+	p           *Prog
+	memo        map[*types.Func][]mEffect
+	inProg      map[*types.Func]bool
+	nLoops      int
+	nSyncMap    int
+	nChan       int
 	summarising int
 }
 
